@@ -21,6 +21,21 @@ CHECKS = {
             'Every case of the stated finite space is executed; header, record layout, every energy and every -r dV/dr value compared with the reference; rejection of every non-multiple-of-4 row count checked on all routes (exception class / configuration error / nothing written).',
             'Trusted: reference closed forms, DL_POLY TABLE layout as encoded in mc/readers/pair.py. nr=4 (division by zero in delpot) belongs to C16.',
             'DESIGN.md 4/C02'),
+    'C03': (E1, 'exploration',
+            'bounded exhaustive enumeration of EAM models (all ordered element subsets x all pair subsets x orientations x listing orders x metadata sources x grids x 4 routes) on the real code; setfl token-stream reader + reference model; two-model histories',
+            'Every model of the stated finite space is written by the implementation and every number of every block (metadata, F(i*drho), rho(i*dr), r*phi for (i,j<=i) in header order, zero-fill) is compared with the reference. All functions are injective in their identity so mis-routing cannot cancel.',
+            'Trusted: setfl layout as LAMMPS reads it (mc/readers/eam.py), reference closed forms, built-in element constants for Al/Cu/Fe/Ni.',
+            'DESIGN.md 4/C03'),
+    'C04': (E1, 'exploration',
+            'bounded exhaustive enumeration of Finnis-Sinclair models: every subset of the n^2 ordered density entries (n<=3), entry orders, embedding orders, under-specified models x 3 targets x 4 routes; consumer-rule readers; slot-by-slot and toy-cluster oracles',
+            'Every subset of declared A->B entries is tabulated and every density slot of every format is compared with the function (or zero) the consumer rule assigns to it; the density of every atom of three toy clusters is recomputed from the file.',
+            'Trusted: the consumer rules of LAMMPS eam/fs, DL_POLY EEAM and the Excel layout as stated in mc/checks/C04.py.',
+            'DESIGN.md 4/C04'),
+    'C05': (E1, 'exploration',
+            'bounded exhaustive enumeration of EAM and Finnis-Sinclair models x grids (incl. a (cutoff,n) lattice sweep) x 4 routes; strict TABEAM reader (declared counts vs blocks, n values per block) + reference model',
+            'Every model is tabulated; declared function count, number/uniqueness/completeness of pair/embe/dens blocks, header n/x0/x1 and every value are compared.',
+            'Trusted: TABEAM layout as encoded in mc/readers/eam.py; %f printing (1e-6 resolution).',
+            'DESIGN.md 4/C05'),
 }
 
 NOT_YET = 'check not built yet in this revision of /verif (bounded exhaustive exploration applies; see DESIGN.md section 4)'
